@@ -105,6 +105,13 @@ func (s *state) ProcessDescriptor(desc SegmentationDescriptor) ([]SegmentationDe
 			}
 		}
 	}
+	// the received list only remembers the last few signal times: a descriptor
+	// that is still open is a duplicate even when that list has forgotten it
+	for _, d := range s.open {
+		if desc.Equal(d) {
+			return nil, gots.ErrSCTE35DuplicateDescriptor
+		}
+	}
 	if sameTime != nil {
 		sameTime.descs = append(sameTime.descs, desc)
 	} else {
